@@ -10,6 +10,7 @@ package shmipc
 
 import (
 	"fmt"
+	"runtime"
 	"strings"
 	"sync"
 	"sync/atomic"
@@ -95,7 +96,7 @@ func vsSpawn(id int, fn func(t *vsThread)) *vsThread {
 		<-t.resume
 		defer func() {
 			if r := recover(); r != nil {
-				t.panicVal = r
+				t.panicVal = fmt.Sprintf("%v [%s]", r, vsShortStack())
 			}
 			t.done = true
 			t.parked <- "done"
@@ -316,4 +317,24 @@ func (g *vsGateT) releaseGate() {
 	default:
 		close(g.release)
 	}
+}
+
+
+// vsShortStack: the library frames of the panicking goroutine (function:line), innermost first
+func vsShortStack() string {
+	pcs := make([]uintptr, 32)
+	n := runtime.Callers(3, pcs)
+	fr := runtime.CallersFrames(pcs[:n])
+	var out []string
+	for {
+		f, more := fr.Next()
+		if strings.Contains(f.Function, "shmipc") && !strings.Contains(f.Function, ".vs") {
+			name := f.Function[strings.LastIndex(f.Function, "/")+1:]
+			out = append(out, fmt.Sprintf("%s:%d", name, f.Line))
+		}
+		if !more || len(out) >= 8 {
+			break
+		}
+	}
+	return strings.Join(out, " < ")
 }
